@@ -12,3 +12,6 @@ import SwcVerif.Props.C07Cat
 #print axioms C07.second_wfr
 #print axioms C07.cat_separate_wfr
 #print axioms C07.cat_separate_sorted
+#print axioms Relabel.isTreeTable_map
+#print axioms C07.sorted_wf_gen
+#print axioms C07.cat_merged_sorted
